@@ -77,8 +77,14 @@ class C01(PropertyCheck):
             for bits in range((1 << n1) - 1):
                 mask = [bool((bits >> i) & 1) for i in range(n1)]
                 vals = gen.distinct_ints(rng, n1)
-                yield {"tag": "1d_exhaustive", "kind": "1d", "bits": "".join("1" if b else "0" for b in mask),
-                       "native": qlist(vals)}
+                bits_s = "".join("1" if b else "0" for b in mask)
+                yield {"tag": "1d_exhaustive", "kind": "1d", "bits": bits_s, "native": qlist(vals)}
+                # Array1D constructor: native input with junk under the mask / slim input × storage mode
+                slim_vals = [v for v, mk in zip(vals, mask) if not mk]
+                for form, values in (("native", vals), ("slim", slim_vals)):
+                    for sn in (False, True):
+                        yield {"tag": "1d_constructor", "kind": "1dcon", "bits": bits_s, "form": form,
+                               "values": qlist(values), "store_native": sn}
 
     def _constructor_cases(self, rng, m, tag):
         h, w = len(m), len(m[0])
@@ -124,6 +130,15 @@ class C01(PropertyCheck):
                 "A1D_slim.slim": qlist(a_s.slim.array), "A1D_slim.native": qlist(a_s.native.array),
                 "A1D_nat.slim": qlist(a_n.slim.array), "A1D_nat.native": qlist(a_n.native.array),
             }
+        if kind == "1dcon":
+            mask = np.array([c == "1" for c in case["bits"]], dtype=bool)
+            m1 = aa.Mask1D(mask=mask, pixel_scales=1.0)
+            vals = np.array([float(Fraction(v)) for v in case["values"]])
+            before = vals.copy()
+            a = aa.Array1D(values=vals, mask=m1, store_native=case["store_native"])
+            return {"stored": "native" if len(np.asarray(a.array)) == len(mask) and case["store_native"] else "slim",
+                    "slim": qlist(a.slim.array), "native": qlist(a.native.array),
+                    "input_unchanged": bool((vals == before).all())}
         m = np.array([c == "1" for c in case["mask"]["bits"]], dtype=bool).reshape(
             case["mask"]["h"], case["mask"]["w"])
         mask = _mask2d(aa, m)
@@ -174,6 +189,9 @@ class C01(PropertyCheck):
                 {"op": "c01.mask_slim_indexes", "mask": mk, "flag": True},
                 {"op": "c01.total_pixels", "mask": mk},
             ]
+        if kind == "1dcon":
+            return [{"op": "c01.array1d_convert", "bits": case["bits"], "values": case["values"],
+                     "store_native": case["store_native"]}]
         if kind == "1d":
             return [
                 {"op": "c01.array1d", "dir": "slim_from", "bits": case["bits"], "values": case["native"]},
@@ -193,6 +211,9 @@ class C01(PropertyCheck):
         if kind == "index":
             return {"native_for_slim": responses[0]["ok"], "unmasked_slim": responses[1]["ok"],
                     "masked_slim": responses[2]["ok"], "pixels_in_mask": responses[3]["ok"]}
+        if kind == "1dcon":
+            r = responses[0]["ok"]
+            return {"stored": r["stored"], "slim": r["slim"], "native": r["native"]}
         if kind == "1d":
             return {"slim": responses[0]["ok"], "nfs": responses[1]["ok"],
                     "native_back": responses[2]["ok"]}
@@ -202,6 +223,10 @@ class C01(PropertyCheck):
                 "native": r["native"]}
 
     def compare(self, case, impl_obs, model_obs, cmp):
+        if case["kind"] == "1dcon":
+            if "err" in impl_obs:
+                return cmp.diff(impl_obs, model_obs)
+            return cmp.diff({k: impl_obs[k] for k in ("stored", "slim", "native")}, model_obs)
         if case["kind"] == "1d":
             if "err" in impl_obs:
                 return cmp.diff(impl_obs, model_obs)
@@ -216,6 +241,22 @@ class C01(PropertyCheck):
         if isinstance(obs, dict) and "err" in obs:
             return False, f"implementation raised {obs}"
         kind = case["kind"]
+        if kind == "1dcon":
+            mask = [c == "1" for c in case["bits"]]
+            vals = [Fraction(v) for v in case["values"]]
+            if case["form"] == "native":
+                exp_slim = [v for v, mk in zip(vals, mask) if not mk]
+            else:
+                exp_slim = vals
+            it = iter(exp_slim)
+            exp_native = [0 if mk else next(it) for mk in mask]
+            if [Fraction(v) for v in obs["slim"]] != exp_slim:
+                return False, f"Array1D({case['form']} input, store_native={case['store_native']}).slim is not the unmasked values in order"
+            if [Fraction(v) for v in obs["native"]] != exp_native:
+                return False, f"Array1D({case['form']} input, store_native={case['store_native']}).native does not hold the values with zeros at masked entries"
+            if not obs["input_unchanged"]:
+                return False, "Array1D constructor modified the caller's array"
+            return True, ""
         if kind == "1d":
             mask = [c == "1" for c in case["bits"]]
             native = [Fraction(v) for v in case["native"]]
@@ -291,7 +332,8 @@ class C01(PropertyCheck):
     def theorems_for(self, case):
         return {
             "index": ["C01.nativeForSlim_eq_spec", "C01.maskSlimIndexes_partition"],
-            "1d": ["C01.roundtrip_1d"],
+            "1d": ["C01.roundtrip_1d_slim", "C01.roundtrip_1d_native", "C01.slim1d_lists_unmasked"],
+            "1dcon": ["C01.constructor_forms_agree_1d"],
         }.get(case["kind"], ["C01.slim_lists_unmasked_row_major", "C01.native_holds_values_and_zeros",
                              "C01.constructor_forms_agree"])
 
